@@ -60,6 +60,10 @@ type pathElem struct {
 type PtrV struct {
 	obj  *Object
 	path []pathElem
+	// array view: a *[viewLen]T aliasing elements [base, base+viewLen) of an
+	// array-like object (result of a slice-to-array-pointer conversion)
+	base    int64
+	viewLen int
 	// pointer to a function-level thing that is not memory (e.g. &sync.Mutex inside struct is normal memory)
 }
 
